@@ -154,6 +154,18 @@ func Validate(root J, s J, v any, path string) []string {
 	return errs
 }
 
+// StrictRequired makes a missing required property an error even when the
+// property declares a default (plain JSON-schema reading; go-openapi/validate
+// accepts it). Only set around a single call; not concurrency-safe.
+var StrictRequired bool
+
+// ValidateStrict is Validate under the plain JSON-schema reading of `required`.
+func ValidateStrict(root J, s J, v any, path string) []string {
+	StrictRequired = true
+	defer func() { StrictRequired = false }()
+	return Validate(root, s, v, path)
+}
+
 func typeOf(v any) string {
 	switch x := v.(type) {
 	case nil:
@@ -292,14 +304,21 @@ func validateRec(root J, s J, v any, path string, errs *[]string, depth int) {
 		if m, ok := num(s["maxProperties"]); ok && float64(len(ov)) > m {
 			add("maxProperties")
 		}
+		props, _ := s["properties"].(J)
 		for _, r := range asList(s["required"]) {
 			if rn, ok := r.(string); ok {
 				if _, has := ov[rn]; !has {
+					// the reference validator (go-openapi/validate) takes a declared
+					// default as satisfying `required`
+					if ps, ok := props[rn].(J); ok && !StrictRequired {
+						if _, hasDef := Resolve(root, ps)["default"]; hasDef || ps["default"] != nil {
+							continue
+						}
+					}
 					*errs = append(*errs, path+"."+rn+": required")
 				}
 			}
 		}
-		props, _ := s["properties"].(J)
 		keys := make([]string, 0, len(ov))
 		for k := range ov {
 			keys = append(keys, k)
